@@ -90,7 +90,7 @@ func (s *c04Sched) startInstance(L int, img *c04Image) *c04Inst {
 
 	d, err := das.NewDASer(&c04Sampler{s: s, in: in}, in.sub, &c04Store{s: s}, &c04DS{Datastore: inner, s: s, in: in},
 		das.WithSamplingRange(s.p.Range), das.WithConcurrencyLimit(L),
-		das.WithBackgroundStoreInterval(s.p.BgEvery), das.WithSampleTimeout(time.Hour))
+		das.WithBackgroundStoreInterval(s.p.BgEvery), das.WithSampleTimeout(c04SampleTimeout(s.p)))
 	if err != nil {
 		s.eng.run.Inconclusive("NewDASer: " + err.Error())
 		return nil
@@ -1028,6 +1028,13 @@ func (s *c04Sched) execute() {
 	s.judgeResume(img, "graceful", s.in.L)
 }
 
+func c04SampleTimeout(p c04Params) time.Duration {
+	if p.SampleTimeout > 0 {
+		return p.SampleTimeout
+	}
+	return time.Hour
+}
+
 func (e *c04Engine) params(rng *vkit.RNG, i int) c04Params {
 	r := rng.SplitN("schedule", i)
 	p := c04Params{Idx: i, Range: vkit.Pick(r, []uint64{1, 2, 3, 10}), L: vkit.Pick(r, []int{1, 2, 4}),
@@ -1058,6 +1065,14 @@ func (e *c04Engine) params(rng *vkit.RNG, i int) c04Params {
 			p.PCancel = 4
 		}
 		p.EndCrash = r.Chance(1, 3)
+	}
+	// a short per-sample timeout in a fifth of the schedules (own stream: the other parameters of a
+	// schedule index stay what they were)
+	if st := r.Split("sample-timeout"); st.Chance(2, 10) {
+		p.SampleTimeout = vkit.Pick(st, []time.Duration{15 * time.Millisecond, 40 * time.Millisecond})
+		if p.PCancel == 0 {
+			p.PCancel = 5
+		}
 	}
 	return p
 }
